@@ -40,6 +40,7 @@ type m3 struct {
 	fragOut   []types.Object
 	synthN    int
 	curRet    []mtype
+	closures  map[types.Object]*ast.FuncLit
 }
 
 type loop3 struct {
@@ -88,6 +89,9 @@ func (c *m3) assignNames() {
 			continue
 		}
 		base := coqName(id.Name)
+		if reserved3[base] {
+			base += "_"
+		}
 		count[base]++
 		if count[base] == 1 {
 			c.names[o] = base
@@ -95,6 +99,15 @@ func (c *m3) assignNames() {
 			c.names[o] = fmt.Sprintf("%s_%d", strings.TrimSuffix(base, "_"), count[base])
 		}
 	}
+}
+
+// names of constructors / constants of the Coq prelude that would be read as patterns in binders
+var reserved3 = map[string]bool{
+	"N": true, "Z": true, "nat": true, "bool": true, "option": true, "prod": true, "Type": true,
+	"left": true, "right": true, "inl": true, "inr": true, "Some": true, "None": true, "O": true, "S": true,
+	"Lt": true, "Gt": true, "Eq": true, "xH": true, "xO": true, "xI": true, "N0": true, "Npos": true, "Z0": true,
+	"Zpos": true, "Zneg": true, "eq_refl": true, "I": true, "conj": true, "exist": true, "length": true, "app": true,
+	"map": true, "rev": true, "hd": true, "tl": true, "nth": true, "id": true, "not": true, "max": true, "min": true,
 }
 
 func (c *m3) vn(o types.Object) string {
@@ -257,8 +270,19 @@ func (c *m3) isCreation(e ast.Expr) bool {
 	if !ok {
 		return false
 	}
-	path, name, ok := c.pkgCall(ce)
-	return ok && (path == "errors" && name == "New" || path == "fmt" && name == "Errorf")
+	if path, name, ok := c.pkgCall(ce); ok && (path == "errors" && name == "New" || path == "fmt" && name == "Errorf") {
+		return true
+	}
+	// T(x) for a named non-interface type T that implements error (OutOfRangeError(str)): a new error value
+	if tv, ok := c.p.info.Types[ce.Fun]; ok && tv.IsType() {
+		if n, isNamed := tv.Type.(*types.Named); isNamed {
+			if _, isIface := n.Underlying().(*types.Interface); !isIface {
+				errT := types.Universe.Lookup("error").Type().Underlying().(*types.Interface)
+				return types.Implements(n, errT) || types.Implements(types.NewPointer(n), errT)
+			}
+		}
+	}
+	return false
 }
 
 // sentinelOf: the constant standing for a package-level error variable (of this or an imported package)
@@ -374,7 +398,7 @@ func (c *m3) ex(e ast.Expr) string {
 		if xt.k == mMap {
 			m := c.ex(e.X)
 			k := c.ex(e.Index)
-			return fmt.Sprintf("(match Go3.map_get %s %s %s with Some v_ => v_ | None => %s end)", c.eqbOf(*xt.key, e), m, k, c.zeroT(*xt.elem, e))
+			return fmt.Sprintf("(match Go3.mget %s %s %s with Some v_ => v_ | None => %s end)", c.eqbOf(*xt.key, e), m, k, c.zeroT(*xt.elem, e))
 		}
 		l := c.listBase(e.X)
 		it := c.tyOf(e.Index)
@@ -405,13 +429,14 @@ func (c *m3) ex(e ast.Expr) string {
 		return c.selector(e)
 	case *ast.TypeAssertExpr:
 		if e.Type != nil {
-			from := c.tyOf(e.X)
+			from := c.mtL(c.typeOf(e.X), e.X, true)
 			to := c.tyOf(e)
 			if from.k == mAbs || (from.k == mUnit && to.k == mAbs) {
 				src := "Any"
-				arg := c.ex(e.X)
+				arg := ""
 				if from.k == mAbs {
 					src = from.abs
+					arg = c.ex(e.X)
 				} else if sel, ok := e.X.(*ast.SelectorExpr); ok {
 					// x.Value.(T) with Value of type interface{}: a projection of the holder
 					ht := c.tyOf(sel.X)
@@ -420,6 +445,9 @@ func (c *m3) ex(e ast.Expr) string {
 						arg = c.ex(sel.X)
 						from = ht
 					}
+				}
+				if arg == "" {
+					c.fail(e, "unsupported type assertion `%s`", c.srcText(e.Pos(), e.End()))
 				}
 				name := fmt.Sprintf("%s_as_%s", src, strings.TrimSuffix(c.coqT(to), "_t"))
 				c.needVar(name, c.coqT(from)+" -> res "+paren(c.coqT(to)), e)
@@ -565,9 +593,48 @@ func (c *m3) compLit(e *ast.CompositeLit) string {
 		if len(e.Elts) != 0 {
 			c.fail(e, "non-empty map literal")
 		}
-		return c.zeroT(t, e)
+		return fmt.Sprintf("(Some (@nil (%s * %s)))", c.coqT(*t.key), c.coqT(*t.elem))
 	case mUnit:
 		return "tt"
+	case mAbs:
+		// a literal of an imported struct the translation does not look into: an abstract constructor named
+		// after the fields given
+		st, ok := gt.Underlying().(*types.Struct)
+		if !ok {
+			break
+		}
+		name := t.abs + "_of"
+		var args, tys []string
+		for _, x := range e.Elts {
+			kv, ok := x.(*ast.KeyValueExpr)
+			if !ok {
+				c.fail(e, "positional literal of the abstract struct %s", t.abs)
+			}
+			key := kv.Key.(*ast.Ident).Name
+			for j := 0; j < st.NumFields(); j++ {
+				if st.Field(j).Name() != key {
+					continue
+				}
+				ft := c.mtL(st.Field(j).Type(), kv, true)
+				if ft.k == mUnit {
+					// a field of interface type (e.g. Curve): evaluated, not passed
+					c.mtL(c.typeOf(kv.Value), kv.Value, true)
+					continue
+				}
+				name += "_" + key
+				args = append(args, c.convTo(kv.Value, st.Field(j).Type()))
+				tys = append(tys, paren(c.coqT(ft)))
+			}
+		}
+		ty := c.coqT(t)
+		if len(tys) > 0 {
+			ty = strings.Join(tys, " -> ") + " -> " + ty
+		}
+		c.needVar(name, ty, e)
+		if len(args) == 0 {
+			return name
+		}
+		return "(" + name + " " + strings.Join(args, " ") + ")"
 	case mStruct:
 		st := gt.Underlying().(*types.Struct)
 		vals := make([]string, st.NumFields())
@@ -731,6 +798,8 @@ func (c *m3) bin3(at ast.Node, op token.Token, xe, ye ast.Expr, rt types.Type) s
 				if id, ok := z.(*ast.Ident); ok && c.direct[c.obj(id)] {
 					return neg("false")
 				}
+				return neg(fmt.Sprintf("(Go3.isnil %s)", c.ex(z)))
+			case mMap:
 				return neg(fmt.Sprintf("(Go3.isnil %s)", c.ex(z)))
 			case mAbs:
 				c.needVar(t.abs+"_isnil", c.coqT(t)+" -> bool", at)
@@ -1025,7 +1094,17 @@ func (c *m3) call3(e *ast.CallExpr) ([]string, []mtype) {
 		x := c.ex(e.Args[0])
 		return one(c.convert(e, x, from, to), to)
 	}
+	if en, meth, ok := c.binaryCall(e); ok && meth == "Uint32" && len(e.Args) == 1 {
+		x := c.ex(e.Args[0])
+		if en == "BigEndian" {
+			return one(c.bind("Go3.be_uint32 "+x), mtype{k: mN, w: 32})
+		}
+		c.fail(e, "binary.LittleEndian.Uint32 (only in the first mode)")
+	}
 	if id, ok := e.Fun.(*ast.Ident); ok {
+		if fl, isClosure := c.closures[c.obj(id)]; isClosure {
+			return c.inlineClosure(e, fl)
+		}
 		if b, isB := c.obj(id).(*types.Builtin); isB {
 			s := c.builtin(e, b.Name())
 			return one(s, c.tyOf(e))
@@ -1037,6 +1116,12 @@ func (c *m3) call3(e *ast.CallExpr) ([]string, []mtype) {
 	if path, name, ok := c.pkgCall(e); ok {
 		if s, t, ok := c.intrinsic(e, path, name); ok {
 			return one(s, t)
+		}
+		if si := c.sortCall(e); si != nil && si.kind == "IsSorted" {
+			xt := c.tyOf(si.target)
+			et := c.coqT(*xt.elem)
+			c.needVar(si.name, fmt.Sprintf("list %s -> bool", paren(et)), e)
+			return one(fmt.Sprintf("(%s %s)", si.name, c.ex(si.target)), mtype{k: mBool})
 		}
 		f, _ := c.obj(e.Fun.(*ast.SelectorExpr).Sel).(*types.Func)
 		if f == nil {
@@ -1057,6 +1142,44 @@ func (c *m3) call3(e *ast.CallExpr) ([]string, []mtype) {
 	}
 	c.fail(e, "unsupported call `%s`", c.srcText(e.Pos(), e.End()))
 	return nil, nil
+}
+
+// binaryCall recognises binary.BigEndian.M(..) / binary.LittleEndian.M(..)
+func (c *m3) binaryCall(e *ast.CallExpr) (string, string, bool) {
+	s1, ok := e.Fun.(*ast.SelectorExpr)
+	if !ok {
+		return "", "", false
+	}
+	s2, ok := s1.X.(*ast.SelectorExpr)
+	if !ok {
+		return "", "", false
+	}
+	pk, ok := s2.X.(*ast.Ident)
+	if !ok {
+		return "", "", false
+	}
+	pn, isPkg := c.obj(pk).(*types.PkgName)
+	if !isPkg || pn.Imported().Path() != "encoding/binary" {
+		return "", "", false
+	}
+	return s2.Sel.Name, s1.Sel.Name, true
+}
+
+// inlineClosure: f(args) for a local f := func(params) T { return e }: the parameters are bound, e is the value
+func (c *m3) inlineClosure(e *ast.CallExpr, fl *ast.FuncLit) ([]string, []mtype) {
+	var ps []*ast.Ident
+	for _, f := range fl.Type.Params.List {
+		ps = append(ps, f.Names...)
+	}
+	if len(ps) != len(e.Args) {
+		c.fail(e, "call of a function literal with %d arguments", len(e.Args))
+	}
+	for i, p := range ps {
+		o := c.p.info.Defs[p]
+		c.pend = append(c.pend, fmt.Sprintf("let %s := %s in", c.vn(o), c.convTo(e.Args[i], o.Type())))
+	}
+	ret := fl.Body.List[0].(*ast.ReturnStmt)
+	return []string{c.ex(ret.Results[0])}, []mtype{c.tyOf(ret.Results[0])}
 }
 
 func repoDir(path string) (string, bool) {
@@ -1124,7 +1247,7 @@ func (c *m3) builtin(e *ast.CallExpr, name string) string {
 		}
 		t := c.tyOf(e.Args[0])
 		if t.k == mMap {
-			return fmt.Sprintf("(Go3.map_len %s)", c.ex(e.Args[0]))
+			return fmt.Sprintf("(Go3.mlen %s)", c.ex(e.Args[0]))
 		}
 		return c.lenOf(c.listBase(e.Args[0]))
 	case "append":
@@ -1152,11 +1275,15 @@ func (c *m3) builtin(e *ast.CallExpr, name string) string {
 		return fmt.Sprintf("(%s ++ [%s])", base, strings.Join(el, "; "))
 	case "new":
 		t := c.tyOf(e)
+		if t.k == mAbs {
+			c.needVar(t.abs+"_new", c.coqT(t), e)
+			return t.abs + "_new"
+		}
 		return "(Some " + c.zeroT(*t.elem, e) + ")"
 	case "make":
 		t := c.tyOf(e)
 		if t.k == mMap {
-			return c.zeroT(t, e)
+			return fmt.Sprintf("(Some (@nil (%s * %s)))", c.coqT(*t.key), c.coqT(*t.elem))
 		}
 		if t.k != mList || len(e.Args) < 2 || len(e.Args) > 3 {
 			c.fail(e, "unsupported make")
@@ -1255,9 +1382,26 @@ func (c *m3) absFuncCall(e *ast.CallExpr, name string, sig *types.Signature, rec
 	}
 	for i, a := range e.Args {
 		pt := sig.Params().At(i).Type()
-		mtp := c.mt(pt, a)
+		mtp := c.mtL(pt, a, true)
 		if mtp.k == mFunc {
-			c.fail(a, "function value passed to the abstract `%s`", name)
+			// a named function passed to a dependency (hmac.New(sha512.New, ..)): part of the dependency's name
+			fn := ""
+			switch x := stripParens(a).(type) {
+			case *ast.SelectorExpr:
+				if f, ok := c.obj(x.Sel).(*types.Func); ok && f.Pkg() != nil {
+					fn = f.Pkg().Name() + "_" + f.Name()
+				}
+			case *ast.Ident:
+				if f, ok := c.obj(x).(*types.Func); ok {
+					fn = f.Name()
+				}
+			}
+			if fn == "" {
+				c.fail(a, "function value passed to the abstract `%s`", name)
+			}
+			name += "__" + fn
+			parts[0] = name
+			continue
 		}
 		if mtp.k == mUnit {
 			// an `interface{}` parameter: the argument's own type
@@ -1279,6 +1423,13 @@ func (c *m3) absFuncCall(e *ast.CallExpr, name string, sig *types.Signature, rec
 	if mutates {
 		rts = append(rts, paren(c.coqT(recvT)))
 	}
+	margs := mutArgs3[name]
+	for _, j := range margs {
+		if j >= len(e.Args) {
+			c.fail(e, "internal: mutArgs3 of %s", name)
+		}
+		rts = append(rts, paren(c.coqT(c.mt(sig.Params().At(j).Type(), e))))
+	}
 	if len(rts) == 0 {
 		c.fail(e, "call of the abstract `%s`, which has no result and no modelled effect", name)
 	}
@@ -1289,24 +1440,35 @@ func (c *m3) absFuncCall(e *ast.CallExpr, name string, sig *types.Signature, rec
 	c.needVar(name, ty, e)
 	call := strings.Join(parts, " ")
 	n := len(rtypes)
-	if !mutates && n == 1 {
+	if !mutates && len(margs) == 0 && n == 1 {
 		return []string{"(" + call + ")"}, rtypes
 	}
 	var names []string
 	for i := 0; i < n; i++ {
 		names = append(names, c.fresh())
 	}
+	all := append([]string{}, names...)
+	nw := ""
 	if mutates {
-		nw := c.fresh()
-		all := append(append([]string{}, names...), nw)
-		if len(all) == 1 {
-			c.pend = append(c.pend, fmt.Sprintf("let %s := %s in", nw, call))
-		} else {
-			c.pend = append(c.pend, fmt.Sprintf("let '(%s) := %s in", strings.Join(all, ", "), call))
-		}
-		c.storePath(recv, nw)
+		nw = c.fresh()
+		all = append(all, nw)
+	}
+	var anew []string
+	for range margs {
+		t := c.fresh()
+		anew = append(anew, t)
+		all = append(all, t)
+	}
+	if len(all) == 1 {
+		c.pend = append(c.pend, fmt.Sprintf("let %s := %s in", all[0], call))
 	} else {
-		c.pend = append(c.pend, fmt.Sprintf("let '(%s) := %s in", strings.Join(names, ", "), call))
+		c.pend = append(c.pend, fmt.Sprintf("let '(%s) := %s in", strings.Join(all, ", "), call))
+	}
+	if mutates {
+		c.storePath(recv, nw)
+	}
+	for i, j := range margs {
+		c.storeBack(e.Args[j], anew[i], false)
 	}
 	return names, rtypes
 }
@@ -1337,6 +1499,26 @@ func (c *m3) pkgFuncCall(e *ast.CallExpr, dir string, f *types.Func, recvExpr as
 	}
 	if s := c.g.legacy[key]; s != nil && recvExpr == nil {
 		return c.legacyCall(e, key, s)
+	}
+	if recvExpr == nil {
+		// a kernel of the first mode (Gen/Kernels.v): unsigned arguments and result
+		for _, k := range kernels {
+			if k.pkg == dir && k.fn == f.Name() {
+				parts := []string{"Kernels." + coqName(f.Name())}
+				for _, a := range e.Args {
+					t := c.tyOf(a)
+					if !(t.k == mN || (t.k == mList && t.elem.k == mN)) {
+						c.fail(e, "call of the first-mode kernel `%s` with a signed argument", f.Name())
+					}
+					parts = append(parts, c.ex(a))
+				}
+				rt := c.tyOf(e)
+				if rt.k != mN {
+					c.fail(e, "call of the first-mode kernel `%s` with a signed result", f.Name())
+				}
+				return []string{"(" + strings.Join(parts, " ") + ")"}, []mtype{rt}
+			}
+		}
 	}
 	c.fail(e, "call of `%s`, which is not (or could not be) translated (list it before its callers; see its own message if any)", f.Name())
 	return nil, nil
@@ -1401,7 +1583,13 @@ func (c *m3) userCall3(e *ast.CallExpr, s *fsig3, recvExpr ast.Expr) ([]string, 
 	}
 	j := len(s.results)
 	if s.mutRecv {
-		c.storeBack(recvExpr, names[j], true)
+		if _, isCall := stripParens(recvExpr).(*ast.CallExpr); isCall {
+			// x.M1(..).M2(..): the receiver of M2 is the pointer M1 returned; its new value has no name here.
+			// Sound only if the object is not used through another name afterwards: checked.
+			c.chainCheck(recvExpr, e)
+		} else {
+			c.storeBack(recvExpr, names[j], true)
+		}
 		j++
 	}
 	for i, m := range s.mutPar {
@@ -1411,6 +1599,44 @@ func (c *m3) userCall3(e *ast.CallExpr, s *fsig3, recvExpr ast.Expr) ([]string, 
 		}
 	}
 	return names[:len(s.results)], s.results
+}
+
+// chainCheck: in x.M1(..).M2(..) with M2 writing through its receiver, the variable x at the root of the
+// chain must not be used after the call (the object M1 returned may be x itself)
+func (c *m3) chainCheck(recv ast.Expr, whole *ast.CallExpr) {
+	root := recv
+	for {
+		root = stripParens(root)
+		call, ok := root.(*ast.CallExpr)
+		if !ok {
+			break
+		}
+		sel, ok := call.Fun.(*ast.SelectorExpr)
+		if !ok {
+			c.fail(recv, "method call on the result of a function call that changes the object")
+		}
+		root = sel.X
+	}
+	o := c.rootVar(root)
+	if o == nil {
+		c.fail(recv, "method call chain whose root is not a variable")
+	}
+	ast.Inspect(c.fn.Body, func(n ast.Node) bool {
+		if id, ok := n.(*ast.Ident); ok && c.obj(id) == o && id.Pos() > whole.End() {
+			c.fail(id, "`%s` is used after a method-call chain that changed the object it may point to (sharing is not modelled)", id.Name)
+		}
+		switch l := n.(type) {
+		case *ast.ForStmt:
+			if l.Pos() < whole.Pos() && whole.End() < l.End() {
+				c.fail(whole, "method-call chain that changes the object inside a loop")
+			}
+		case *ast.RangeStmt:
+			if l.Pos() < whole.Pos() && whole.End() < l.End() {
+				c.fail(whole, "method-call chain that changes the object inside a loop")
+			}
+		}
+		return true
+	})
 }
 
 func anyTrue(b []bool) bool {
@@ -1550,7 +1776,7 @@ func (c *m3) methodCall(e *ast.CallExpr, sel *ast.SelectorExpr, s *types.Selecti
 				}
 			}
 			// a method of an imported struct the translation looks into (wire.MsgTx.Copy, ..): abstract
-			return c.absFuncCall(e, n.Obj().Pkg().Name()+"_"+n.Obj().Name()+"_"+f.Name(), gsig, sel.X, "", false)
+			return c.absFuncCall(e, n.Obj().Pkg().Name()+"_"+n.Obj().Name()+"_"+f.Name(), gsig, sel.X, "", mutating3[n.Obj().Name()+"."+f.Name()])
 		}
 	}
 	c.fail(e, "unsupported method call `%s`", c.srcText(e.Pos(), e.End()))
@@ -1610,6 +1836,49 @@ func (c *m3) dispatch(e *ast.CallExpr, sel *ast.SelectorExpr, it mtype, f *types
 // ---------------------------------------------------------------------------
 // package-level tables and string constants
 
+// checkReadOnly3: as checkReadOnly of the first mode, but passing the table to a function of an imported
+// package counts as a read (noted: the callee is assumed not to modify or retain it)
+func (c *m3) checkReadOnly3(f *ast.File, v *types.Var, name string) {
+	allowed := map[*ast.Ident]bool{}
+	ast.Inspect(f, func(n ast.Node) bool {
+		ce, ok := n.(*ast.CallExpr)
+		if !ok {
+			return true
+		}
+		sel, ok := ce.Fun.(*ast.SelectorExpr)
+		if !ok {
+			return true
+		}
+		if x, ok := sel.X.(*ast.Ident); ok {
+			if _, isPkg := c.p.info.Uses[x].(*types.PkgName); isPkg {
+				for _, a := range ce.Args {
+					if id, ok := a.(*ast.Ident); ok && c.p.info.Uses[id] == v {
+						allowed[id] = true
+						c.note(ce, "the package-level `%s` is passed to `%s`, assumed not to modify it", name, c.srcText(ce.Fun.Pos(), ce.Fun.End()))
+					}
+				}
+			}
+		}
+		return true
+	})
+	if len(allowed) == 0 {
+		c.checkReadOnly(f, v, name)
+		return
+	}
+	// temporarily hide the allowed uses from the strict check
+	saved := map[*ast.Ident]types.Object{}
+	for id := range allowed {
+		saved[id] = c.p.info.Uses[id]
+		delete(c.p.info.Uses, id)
+	}
+	defer func() {
+		for id, o := range saved {
+			c.p.info.Uses[id] = o
+		}
+	}()
+	c.checkReadOnly(f, v, name)
+}
+
 func (c *m3) strConst(use *ast.Ident, k *types.Const) string {
 	name := c.p.name + "_" + use.Name
 	if _, ok := c.g.consts.lens[name]; ok {
@@ -1650,12 +1919,25 @@ func (c *m3) table3(use *ast.Ident, v *types.Var) (string, int) {
 	if spec == nil || idx >= len(spec.Values) || len(spec.Names) != len(spec.Values) {
 		c.fail(use, "package-level `%s` has no initialiser the translator can read", use.Name)
 	}
+	t := c.mt(v.Type(), use)
+	var elems []string
 	cl, ok := spec.Values[idx].(*ast.CompositeLit)
+	if !ok {
+		// var x = []byte("constant")
+		conv, isConv := spec.Values[idx].(*ast.CallExpr)
+		if isConv && len(conv.Args) == 1 {
+			if tv, has := c.p.info.Types[conv.Args[0]]; has && tv.Value != nil && tv.Value.Kind() == constant.String && t.k == mList && t.elem.k == mN {
+				for _, b := range []byte(constant.StringVal(tv.Value)) {
+					elems = append(elems, fmt.Sprint(b))
+				}
+				cl = &ast.CompositeLit{}
+				ok = true
+			}
+		}
+	}
 	if !ok {
 		c.fail(use, "package-level `%s` is not initialised by a composite literal", use.Name)
 	}
-	t := c.mt(v.Type(), use)
-	var elems []string
 	for _, el := range cl.Elts {
 		if _, isKV := el.(*ast.KeyValueExpr); isKV {
 			c.fail(el, "keyed element in the initialiser of `%s`", use.Name)
@@ -1670,7 +1952,7 @@ func (c *m3) table3(use *ast.Ident, v *types.Var) (string, int) {
 		c.fail(use, "array `%s` is not fully initialised", use.Name)
 	}
 	for _, f := range c.p.files {
-		c.checkReadOnly(f, v, use.Name)
+		c.checkReadOnly3(f, v, use.Name)
 	}
 	sp := c.p.fset.Position(spec.Pos())
 	c.g.consts.defs[name] = fmt.Sprintf("(* %s:%d   var %s *)\nDefinition %s : %s := [%s].\n",
